@@ -48,9 +48,13 @@ def symlink_level(ctx, rng, viol):
                 cwdp = os.path.join(base, cwd) if cwd else base
                 reqs, meta = [], []
                 for sp in sps:
-                    for form in ("abs", "rel"):
+                    for form in ("abs", "rel", "raw"):
                         if form == "abs":
                             t = os.path.join(base, sp)
+                        elif form == "raw":
+                            # the spelling itself, uncleaned (`..` after a symlinked directory stays), reached from this cwd
+                            up = os.path.relpath(base, os.path.realpath(cwdp))
+                            t = sp if up == "." else up + "/" + sp
                         else:
                             # a relative spelling valid from this cwd (lexically from the real cwd)
                             t = os.path.relpath(os.path.join(base, sp), os.path.realpath(cwdp))
@@ -256,6 +260,54 @@ def fs_semantics_level(ctx, rng, viol):
     return stats
 
 
+def oob_other_dir_scenario(viol):
+    """Names handed to the out-of-band rebuild (`redo-unlocked`, taken when a checksummed dependency is dirty) from a
+    working directory that is not the running target's: (A) the script did `cd sub` and names `../mid`; (B) `out/x.res`
+    is built by the parent directory's default.res.do.  After the source changes, each rebuild succeeds, gives the new
+    content, runs gen.do once, and no record appears under a wrong name."""
+    from proj import Project
+    pr = Project()
+    try:
+        os.makedirs(pr.path("sub"))
+        os.makedirs(pr.path("out"))
+        pr.write("src", "one\n")
+        pr.write("gen.do", "redo-ifchange src\necho gen >>trace\ncat src\nredo-stamp <src\n")
+        pr.write("mid.do", "redo-ifchange gen\nsed 's/^/mid:/' gen\n")
+        pr.write("top.do", "cd sub\nredo-ifchange ../mid\ncat ../mid\n")
+        pr.write("default.res.do", "redo-ifchange mid\ncat mid\n")
+        problems = []
+        for t in ("top", "out/x.res"):
+            rc, o, e = pr.run(["redo", t])
+            if rc != 0:
+                problems.append("first build of %s failed (%d)" % (t, rc))
+        last = ""
+        for t, val in (("top", "two"), ("out/x.res", "three")):
+            time.sleep(0.05)
+            pr.write("src", val + "\n")
+            pr.write("trace", "")
+            rc, o, e = pr.run(["redo", t])
+            last = e
+            if rc != 0:
+                problems.append("`redo %s` failed (%d) after the source under a checksummed target changed" % (t, rc))
+            got = (pr.read(t) or b"").decode().strip()
+            if got != "mid:" + val:
+                problems.append("%s holds %r, a fresh build gives %r" % (t, got, "mid:" + val))
+            n = len((pr.read("trace") or b"").split())
+            if n != 1:
+                problems.append("gen.do ran %d times for `redo %s`" % (n, t))
+        rc, o1, e = pr.run(["redo-targets"])
+        rc, o2, e = pr.run(["redo-sources"])
+        stray = sorted(set(l for l in (o1 + o2).split("\n") if l.startswith("sub/") or l.startswith("../") or l in ("out/gen", "out/mid", "out/src")))
+        if stray:
+            problems.append("records under wrong names: %s" % " ".join(stray))
+        if problems:
+            p = write_replay("C15", "oob-other-dir", dict(kind="impl-monitor", problems=problems, stderr=last[-800:],
+                scenario="gen (redo-stamp) <- mid <- top (top.do: cd sub; redo-ifchange ../mid) and out/x.res (default.res.do in the parent directory); edit src; redo top; edit src; redo out/x.res"))
+            viol.append(Violation("C15", p, "out-of-band rebuild from another working directory: " + "; ".join(problems[:3])))
+    finally:
+        pr.destroy()
+
+
 def run(ctx):
     rng = random.Random(ctx["seed"])
     thorough = ctx["tier"] == "thorough"
@@ -313,8 +365,20 @@ def run(ctx):
         l, a, b = min(diffs, key=lambda d: len(d[0]))
         p = write_replay("C15", "corr", dict(kind="model-vs-impl", layer="Paths", request=l, model=a, impl=b, count=len(diffs)))
         viol.append(Violation("C15", p, "model and implementation disagree on %d path requests (first: %s)" % (len(diffs), l), no_input=True))
+    if diffs and len(viol) == 1 and viol[0].no_input:
+        # the correspondence broke: search the implementation for a concrete spelling that now denotes two targets
+        found = []
+        symlink_level(ctx, rng, found)
+        if not found:
+            process_level(ctx, rng, found)
+        if not found:
+            oob_other_dir_scenario(found)
+        if found:
+            viol[:] = found[:1]
     sym = symlink_level(ctx, rng, viol) if not viol else {}
     prc = process_level(ctx, rng, viol) if not viol else {}
+    if not viol:
+        oob_other_dir_scenario(viol)
     fss = fs_semantics_level(ctx, random.Random(ctx["seed"] * 101 + 15), viol) if not viol else {}
     distinct = len(set(lines))
     nontrivial = len(set(l for l, r in zip(lines, impl) if l.split(" ", 1)[0] != "normpath" or hx(l) != r and unhx(l.split()[1]) != unhx(r)))
